@@ -68,6 +68,14 @@ Check C12_walk_terminates : forall runid cyc w c f r mx,
   is_dirty fuel runid cyc w c f r mx [] <> EFuel.
 Print Assumptions C12_walk_terminates.
 
+(* and it never answers "cyclic dependency" any more, whatever the rows say *)
+Theorem C12_walk_never_reports_a_cycle : forall fuel runid cyc w c f r mx seen w' c' e,
+  is_dirty fuel runid cyc w c f r mx seen <> Ret (VCycle, w', c', e).
+Proof. exact is_dirty_never_cyclic. Qed.
+Check C12_walk_never_reports_a_cycle : forall fuel runid cyc w c f r mx seen w' c' e,
+  is_dirty fuel runid cyc w c f r mx seen <> Ret (VCycle, w', c', e).
+Print Assumptions C12_walk_never_reports_a_cycle.
+
 Definition C12_full_statement : Prop :=
   True (* every invocation whose requested closure contains a cycle terminates in bounded time
           with a non-zero status naming a cyclic dependency, at every -j and entry point *).
